@@ -36,17 +36,21 @@ structure PSpec where
 def parseOffs (s : String) : List Nat :=
   if s = "-" || s = "" then [] else (s.splitOn "+").filterMap String.toNat?
 
+/-- duration field; `r` = the production is *refused* (`publishBlock` returns at once without producing
+a block, as at the pending limit): for the loop a production of 0 ms. -/
+def parseDur (d : String) : Option Nat := if d = "r" then some 0 else d.toNat?
+
 def parseScript (s : String) : Option (List PSpec) :=
   if s = "-" || s = "" then some []
   else (s.splitOn ",").mapM fun it =>
     match it.splitOn ":" with
     | [k, d, o] => do
       let k ← k.toNat?
-      let d ← d.toNat?
+      let d ← parseDur d
       some { idx := k, dur := d, offs := parseOffs o, probes := [] }
     | [k, d, o, p] => do
       let k ← k.toNat?
-      let d ← d.toNat?
+      let d ← parseDur d
       some { idx := k, dur := d, offs := parseOffs o, probes := parseOffs p }
     | _ => none
 
